@@ -157,6 +157,8 @@ class AbsInt:
             a = self.operand(env, rv["a"], body)
             if a[0] == "const" and str(rv["op"]).lower() == "not" and isinstance(a[1], bool):
                 return const(not a[1])
+            if rv["op"] == "PtrMetadata" and a[0] == "slice":
+                return const(a[1])         # length read by a slice pattern
             return UNKNOWN
         if k == "binop":
             a, b = self.operand(env, rv["a"], body), self.operand(env, rv["b"], body)
